@@ -245,9 +245,12 @@ impl Prop for C13 {
 
     fn strategy(&self, _ctx: &Ctx) -> BoxedStrategy<ClockCase> {
         let plain = prop_oneof![
-            3 => (clock_value(), clock_value(), inc_value(), inc_value(), any::<bool>(), 0u8..4, prop_oneof![2 => Just(0u8), 1 => 1u8..4], prop_oneof![2 => Just(0u8), 1 => 1u8..28]).prop_map(|(wtime, btime, winc, binc, black, order, omit, movestogo)| ClockCase::Clock { wtime, btime, winc, binc, black, order, omit, movestogo }),
-            1 => (prop_oneof![2 => prop::sample::select(vec![0u64, 1, 4, 5, 6, 10, 50, 200]), 1 => 0u64..2000], any::<bool>()).prop_map(|(movetime, black)| ClockCase::MoveTime { movetime, black }),
-            1 => (clock_value(), clock_value(), inc_value(), inc_value(), prop_oneof![1 => prop::sample::select(vec![0u64, 1, 5, 6, 50, 200]), 1 => 0u64..3000], any::<bool>(), 0u8..5, 0u8..4)
+            // both clocks at the bottom of their range at once
+            1 => (prop::sample::select(vec![(0u64, 0u64), (0, 1), (1, 0), (1, 1), (0, 7499), (7499, 0)]), inc_value(), inc_value(), any::<bool>(), 0u8..4, 0u8..4)
+                .prop_map(|((wtime, btime), winc, binc, black, order, omit)| ClockCase::Clock { wtime, btime, winc, binc, black, order, omit, movestogo: 0 }),
+            6 => (clock_value(), clock_value(), inc_value(), inc_value(), any::<bool>(), 0u8..4, prop_oneof![2 => Just(0u8), 1 => 1u8..4], prop_oneof![2 => Just(0u8), 1 => 1u8..28]).prop_map(|(wtime, btime, winc, binc, black, order, omit, movestogo)| ClockCase::Clock { wtime, btime, winc, binc, black, order, omit, movestogo }),
+            2 => (prop_oneof![2 => prop::sample::select(vec![0u64, 1, 4, 5, 6, 10, 50, 200]), 1 => 0u64..2000], any::<bool>()).prop_map(|(movetime, black)| ClockCase::MoveTime { movetime, black }),
+            2 => (clock_value(), clock_value(), inc_value(), inc_value(), prop_oneof![1 => prop::sample::select(vec![0u64, 1, 5, 6, 50, 200]), 1 => 0u64..3000], any::<bool>(), 0u8..5, 0u8..4)
                 .prop_map(|(wtime, btime, winc, binc, movetime, black, place, extra)| ClockCase::Both { wtime, btime, winc, binc, movetime, black, place, extra }),
         ];
         (plain, prop_oneof![3 => Just(0u8), 1 => 1u8..16]).prop_map(|(inner, extra)| if extra % 8 == 0 { inner } else { ClockCase::With { inner: Box::new(inner), extra } }).boxed()
